@@ -371,3 +371,16 @@ func (s *Stats) write() {
 	b, _ := json.MarshalIndent(m, "", " ")
 	_ = os.WriteFile(out+"."+name+".json", b, 0o644)
 }
+
+// Failer is the part of *testing.T / *rapid.T harness set-up code needs.
+type Failer interface {
+	Fatalf(format string, args ...any)
+}
+
+// RTOrT returns the rapid T of the case, or t when replaying.
+func (c *Case) RTOrT(t *testing.T) Failer {
+	if c.RT != nil {
+		return c.RT
+	}
+	return t
+}
